@@ -47,6 +47,7 @@ func (a apiCall) String() string {
 
 type apiHistory struct {
 	M, P, C   int
+	OneRecord bool // every AddWarrior goes through one WarriorData variable that the caller refills (derived from M, P, C)
 	Templates [][]string `json:"templates"`
 	Calls     []string   `json:"calls"`
 	templates []mars.WarriorCode
@@ -80,6 +81,7 @@ var (
 
 // apiRunner drives a real simulator and the reference model with the same calls.
 type apiRunner struct {
+	rec     g.WarriorData
 	c       *Ctx
 	h       *apiHistory
 	s       g.Simulator
@@ -95,6 +97,7 @@ func newAPIRunner(c *Ctx, h *apiHistory) (*apiRunner, string) {
 	if p, msg := try(func() { s, err = g.NewSimulator(cfg) }); p || err != nil {
 		return nil, fmt.Sprintf("NewSimulator: %v %s", err, msg)
 	}
+	h.OneRecord = (h.M+h.P+h.C)%2 == 1
 	return &apiRunner{c: c, h: h, s: s, ref: mars.NewBattle(h.M, h.P, h.C, h.M, h.M)}, ""
 }
 
@@ -166,7 +169,14 @@ func (r *apiRunner) apply(call apiCall) (d string) {
 	switch call.Kind {
 	case "add":
 		t := r.h.templates[call.W]
-		w, err := s.AddWarrior(&g.WarriorData{Name: fmt.Sprintf("w%d", call.W), Code: toGCode(t.Code), Start: t.Start})
+		data := &g.WarriorData{Name: fmt.Sprintf("w%d", call.W), Code: toGCode(t.Code), Start: t.Start}
+		if r.h.OneRecord {
+			// the caller refills one record for every add (as a loop reading warrior files would)
+			r.rec = *data
+			data = &r.rec
+			c.Inc("adds_through_one_refilled_record")
+		}
+		w, err := s.AddWarrior(data)
 		if err != nil || w == nil {
 			return fmt.Sprintf("AddWarrior returned (%v,%v)", w, err)
 		}
